@@ -12,6 +12,7 @@ input runs once on a real in-process distributed.Client and must give the same s
 from ..sched import Scenario, Violation
 from ..fakes.dask import FakeClient
 from .. import spar
+from ..common import Finding
 
 MOD = __name__
 
@@ -321,6 +322,9 @@ def conformance(ctx):
     import logging
     logging.getLogger("distributed").setLevel(logging.ERROR)
 
+    for prog in PROGS:
+        precompute_local(prog, False, 3)     # local references first: they need their own loop thread
+
     async def run():
         async with Client(processes=False, n_workers=1, threads_per_worker=2, dashboard_address=None, asynchronous=True) as client:
             for prog in PROGS:
@@ -348,6 +352,26 @@ def check(ctx):
              "<= d deviations; distinct = distinct observation logs",
         assumptions=["trusted fake Dask client: scatter/gather RPCs complete FIFO on the next loop turn, tasks complete only on explorer events, nested futures resolved on gather/submit",
                      "producers await each emit (documented usage)"])
+    if ctx.thorough:
+        # validate the fake: every one-source program once on a real in-process cluster (separate
+        # process: it starts threads, which must not exist in the forking parent)
+        import json
+        import subprocess
+        import sys
+        code = ("import json,warnings;warnings.filterwarnings('ignore');from vf import bind_repo;bind_repo();"
+                "from vf.props import c20;print('CONF'+json.dumps([[p,g,w] for p,g,w in c20.conformance(None)],default=list))")
+        r = subprocess.run([sys.executable, "-c", code], capture_output=True, text=True, timeout=900, cwd=__import__("os").path.dirname(__import__("os").path.dirname(__import__("os").path.dirname(__file__))))
+        line = [l for l in r.stdout.splitlines() if l.startswith("CONF")]
+        if not line:
+            rep.notes.append("fake-vs-real conformance could not run: %s" % (r.stderr[-300:],))
+        else:
+            res = json.loads(line[0][4:])
+            bad = [x for x in res if x[1] != x[2]]
+            rep.coverage["fake_vs_real_programs"] = len(res)
+            rep.coverage["fake_vs_real_disagreements"] = len(bad)
+            for prog, got, want in bad:
+                rep.add(Finding("fake-vs-real", "dask/" + prog, "", dict(engine="conformance", program=prog, real_cluster=got, local=want),
+                                "real in-process cluster gave %r, local pipeline %r" % (got, want)))
     return rep
 
 
